@@ -150,6 +150,7 @@ def run(ctx):
     # ---------------------------------------------------------------- StreamBufferReader
     check_reader(ctx, prog, other_val)
     check_swap(ctx, prog)
+    check_string_writers(ctx, prog)
     return __doc__.split('\n\n', 1)[1]
 
 
@@ -585,6 +586,54 @@ def provenance(f, e, ptr_field):
         if b.get('k') == 'mem' and b.get('f') == ptr_field and i is not None:
             return {i: 0}
     return None
+
+
+def check_string_writers(ctx, prog):
+    """C16.string: `stream << String` writes exactly length() bytes starting at the first character, also when the String holds
+    a NUL byte (a String is a byte container: StreamBuffer, File and Socket must agree).  The operator is interpreted with the
+    text "ab\\0cd" (length 5) and the primitive write(ptr, n) replaced by a recorder."""
+    import scansim
+    n = 0
+    for cls in STREAM_CLASSES:
+        for f in prog.pattern(cls + '::operator<<'):
+            if not f.get('body') or len(f['params']) != 1:
+                continue
+            pt = T(f, T(f, f['params'][0]['t']).get('to') or 0)
+            if pt.get('rec') != 'asl::String':
+                continue
+            n += 1
+            ctx.analysed(f)
+            role = '%s<<(const String&):writes length() bytes' % cls.split('::')[-1]
+            text = [97, 98, 0, 99, 100]
+            rec = []
+
+            def writer(run, e, args, rec=rec):
+                rec.append(args)
+                return args[1] if len(args) > 1 and isinstance(args[1], int) else 0
+            pid = f['params'][0]['id']
+            bufs = {('O', pid): list(text) + [0]}
+            r = scansim.Run(prog, f, bufs, objects=True, methods={'write': writer, '*': 'interp'})
+            r.objlen[pid] = len(text)
+            r.strobjs.add(pid)
+            try:
+                r.run()
+            except (scansim.Unsupported, scansim.OOB, TypeError, KeyError, IndexError) as u:
+                ctx.undecided('C16.string', f['pq'], role, fwhere(f), 'outside the interpreted fragment: %s' % u)
+                continue
+            total = 0
+            ok = bool(rec)
+            pos = 0
+            for a in rec:
+                if not (len(a) >= 2 and isinstance(a[0], tuple) and a[0][0] == 'P' and a[0][1] == ('O', pid) and isinstance(a[1], int)) or a[0][2] != pos:
+                    ok = False
+                    break
+                pos += a[1]
+                total += a[1]
+            ctx.evaluations += 1
+            ctx.check(ok and total == len(text), 'C16.string', f['pq'], role, fwhere(f), 'write(first character, length()) for a 5-byte String with an embedded NUL',
+                      '%s writes %s byte(s) of the 5-byte String "ab\\0cd" (%s): the text is cut at an embedded NUL (a strlen-based overload was used), the stream is no longer the concatenation of the values written and every later value is read back from the wrong offset' % (
+                          f['q'], total, 'writes: %s' % [(a[0][2] if isinstance(a[0], tuple) else '?', a[1]) for a in rec if len(a) >= 2]))
+    ctx.floor('C16.string', n, 2)
 
 
 def abs_reader(ctx, prog, f, k, orders):
